@@ -22,6 +22,9 @@ const (
 	valueLogSmallCopyThreshold        = 4 << 10         // copy small values to reduce read lock hold.
 )
 
+// internalKeyPrefix marks keys the engine itself stores in the default column family.
+var internalKeyPrefix = []byte("!NoKV!")
+
 var lfDiscardStatsKey = []byte("!NoKV!discard") // For storing lfDiscardStats
 
 type valueLog struct {
